@@ -5,6 +5,7 @@ import AfkakProofs.Group.DrainStep
 import AfkakProofs.Group.OneJoin
 import AfkakProofs.Group.HbStable
 import AfkakProofs.Group.Compose
+import AfkakProofs.Group.StopCalled
 import AfkakProps.Open.C16
 /-!
 # C16 — generation fencing: no partition consumer outlives its group generation
@@ -115,6 +116,16 @@ theorem C16_one_join (cfg : Cfg) (evs : List Ev) : oneJoin (toMSteps (run cfg ev
 theorem C16_heartbeat_only_stable (cfg : Cfg) (evs : List Ev) : heartbeatOnlyStable (toMSteps (run cfg evs)) = true :=
   heartbeatOnlyStable_run cfg evs
 
+/-- The STRICT reading of "after stop": once `stop()` has been CALLED on a started, not stopping
+    member, no JoinGroup request is observed any more (monitor `noJoinAfterStopCalled`), although
+    `ConsumerGroup.stop` first drains the consumers and only then lets `Coordinator.stop` set
+    `_stopping`.  During that drain heartbeats continue (the consumers' final commits need a live
+    membership) and a pending rejoin may still look the coordinator up and load metadata — it parks
+    in `on_join_prepare`; from the moment `Coordinator.stop` has begun nothing but the leave goes out
+    (`C16_after_stop_only_leave`, the reading the C16 text is checked under). -/
+theorem C16_no_join_after_stop_called (cfg : Cfg) (evs : List Ev) : noJoinAfterStopCalled (toMSteps (run cfg evs)) = true :=
+  noJoinAfterStopCalled_run cfg evs
+
 /-- **Composition with the consumer package** (`Afkak.Consumer`, properties C02/C03/C13/C14): for ANY
     group history, any consumer record `c` the group holds and ANY run of the consumer model taken
     as that consumer's behaviour, every commit request it emits goes on the wire with the
@@ -179,6 +190,7 @@ C16_one_join
 C16_heartbeat_only_stable
 C16_commit_fencing
 C16_commit_identity_source
+C16_no_join_after_stop_called
 -/
 /- OPEN_STATEMENTS
 -/
